@@ -611,3 +611,49 @@ Example fmt_dec_examples :
   classify_float (B "") = FInvalid /\
   classify_float (B "1234567890123456") = FOut /\ classify_float (B "-2.25") = FIn (-225) 2.
 Proof. repeat split; vm_compute; reflexivity. Qed.
+
+(* ------------------------------------------------------------------ the specification as a state machine *)
+(* A formulation without any model database: the specification's own state is a view; between two
+   commands time passes ([live]: keys whose deadline has been reached disappear); a trace of
+   (step, reply) pairs is accepted when, from the current view, each command's clause admits the
+   observed reply and SOME next view, from which the rest of the trace is accepted.  Clocks are
+   required to be non-decreasing (as the implementation's clock is). *)
+Definition live (now : Z) (V : kview) : kview :=
+  fun k => match V k with
+           | Some (v, Some t) => if t <=? now then None else Some (v, Some t)
+           | x => x
+           end.
+
+Fixpoint accepts (V : kview) (last : Z) (tr : list (step * reply)) : Prop :=
+  match tr with
+  | [] => True
+  | (s, r) :: tr' =>
+    last <= s_now s /\
+    exists V0 V', veq V0 (live (s_now s) V) /\
+                  ref_step atoi64 model_floatlib V0 (s_now s) (s_args s) r V' /\
+                  accepts V' (s_now s) tr'
+  end.
+
+Definition trace (d : db) (p : list step) : list (step * reply) :=
+  map (fun x => let '(_, s, r, _) := x in (s, r)) (run d p).
+
+Fixpoint clocks_from (last : Z) (p : list step) : Prop :=
+  match p with [] => True | s :: p' => last <= s_now s /\ clocks_from (s_now s) p' end.
+
+Lemma accepts_run p : forall d V last, db_wf d -> veq V (view d last) -> clocks_from last p ->
+  Forall (fun s => strings_cmd (s_args s) = true) p -> accepts V last (trace d p).
+Proof.
+  induction p as [|s p IH]; intros d V last W HV HC HS; [exact I|].
+  destruct HC as (L & HC). inversion HS as [|? ? Hs HS']; subst.
+  unfold trace. cbn [run].
+  destruct (exec d (s_now s) (s_nowms s) (s_args s) (s_hint s)) as [r d'] eqn:E.
+  cbn [map]. split; [exact L|].
+  exists (view d (s_now s)), (view d' (s_now s)). split; [|split].
+  - intros k. unfold live. rewrite (HV k). apply view_later. exact L.
+  - eapply strings_step_refines; eauto.
+  - apply (IH d' (view d' (s_now s)) (s_now s)); [eapply exec_wf_strings; eauto|intros k; reflexivity|exact HC|exact HS'].
+Qed.
+
+Theorem refines_trace p d now0 : db_wf d -> clocks_from now0 p ->
+  Forall (fun s => strings_cmd (s_args s) = true) p -> accepts (view d now0) now0 (trace d p).
+Proof. intros W HC HS. apply (accepts_run p d); auto. intros k; reflexivity. Qed.
